@@ -151,6 +151,15 @@ func CanParallelSearch(dataProcessors []*DataProcessor) (bool, int) {
 		}
 
 		if dp.IsBottleneckCmd() {
+			// A two-pass command behind the merge point rewinds the merged
+			// chains and reads them a second time. They can't replay their
+			// results: the merger has consumed the results of the first pass.
+			for _, laterDp := range dataProcessors[i+1:] {
+				if laterDp.IsTwoPassCmd() {
+					return false, i
+				}
+			}
+
 			return canSplit, i
 		}
 	}
